@@ -3308,7 +3308,7 @@ class Face3D(Base2DIn3D):
 
     def __key(self):
         """A tuple based on the object properties, useful for hashing."""
-        return tuple(hash(pt) for pt in self._vertices) + (hash(self._plane),)
+        return tuple(self._vertices) + (self._plane,)
 
     def __hash__(self):
         return hash(self.__key())
